@@ -142,8 +142,18 @@ def check_C09(tier):
     conf = extract_conf(env)
     calls = search_family(rep, env, conf, 'findlist', tier, 'C09 family: searches with ">" x universes whose names sort below "/"',
                           keep=_has_gt, gt=True)
+    # the same operator on the real finders: '>' first, then any second edit, on materialised trees
+    env.run('probe_routing.py', [conf])
+    calls2 = K.spec_to_code(rep, env, conf, 'MC_Search', 'MC_Search_finders_gt_%s.cfg' % tier, 'C09 on FindInPaths / FindInAll: ">" then one more edit, over the store universes',
+                            transform=lambda cs: [c for c in cs if _has_gt(c)], max_calls=(600 if tier == 'quick' else None))
+    uni = _universes(env, conf)
+    calls2.sort(key=lambda c: c['univ'])
+    K.code_to_spec(rep, env, conf, calls2, '">" searches through FindInList / FindInPaths(local, server) / FindInAll on materialised trees',
+                   tag='findersgt', extra={'SPIL_UNIVERSES': uni, 'SPIL_CONF_JSON': conf}, envs=store_envs(8, env), per=40, chunk=2000)
+    rep.items = [it for it in rep.items if it['kind'] != 'finders' or not set(it['clauses']) <= {'finders_agree_despite_type_guess'}]
     rep.exhaustive = True
     rep.guard('findlist:gt:found' in rep.cover or not calls, 'no ">" search with a result exercised')
+    rep.guard(any(t.startswith('finders:') and ':gt:found' in t for t in rep.cover) or not calls2, 'no ">" search with a result on the real finders')
     rep.notes['gt_precondition_false'] = rep.cover.get('findlist:gt-precondition-false', 0)
     rep.assumptions = ['the comparison applies where all unfolded forms carry ">" at one position (else counted as gt-precondition-false)']
     return rep.done()
@@ -156,6 +166,14 @@ def check_C10(tier):
     conf = extract_conf(env)
     calls = search_family(rep, env, conf, 'algebra', tier, 'C10 family: (search, derived searches) by the five rewrite rules',
                           keep=lambda c: c.get('op') == 'algebra', gt=True, max_calls=(12000 if tier == 'quick' else None))
+    # the same (search, derived searches) on FindInPaths (local, server) and FindInAll over materialised trees
+    env.run('probe_routing.py', [conf])
+    rnd = random.Random(SEED + 3)
+    fs = [dict(c, op='algebrafs') for c in (rnd.sample(calls, min(len(calls), 500)) if tier == 'quick' else calls)]
+    uni = _universes(env, conf)
+    fs.sort(key=lambda c: c['univ'])
+    K.code_to_spec(rep, env, conf, fs, 'the algebra on FindInList / FindInPaths(local, server) / FindInAll over materialised trees',
+                   tag='algebrafs', extra={'SPIL_UNIVERSES': uni, 'SPIL_CONF_JSON': conf}, envs=store_envs(8, env), per=40, chunk=2000)
     rep.exhaustive = True
     for r in ('union:comma', 'union:alias', 'starstar', 'filter', 'literal'):
         rep.guard(any(t.startswith('algebra:' + r) for t in rep.cover) or not calls, 'rule %s never exercised' % r)
@@ -193,7 +211,7 @@ def check_C19(tier):
     return rep.done()
 
 
-def path_family(rep, env, conf, family, tier, what, first_cfg=None, reverse=False, tag=None):
+def path_family(rep, env, conf, family, tier, what, first_cfg=None, reverse=False, tag=None, cap=None, twice=False):
     def tr(cs):
         out = []
         for c in cs:
@@ -202,10 +220,18 @@ def path_family(rep, env, conf, family, tier, what, first_cfg=None, reverse=Fals
             out.append(c)
         return out
     calls = K.spec_to_code(rep, env, conf, 'MC_Path', 'MC_Path_%s_%s.cfg' % (family, tier), what, transform=tr)
+    if twice:
+        # every Sid is asked again, in the same interpreter, after all the others (in a seeded random order)
+        second = list(calls)
+        random.Random(SEED + 5).shuffle(second)
+        calls = calls + second
     extra = {'SPIL_CONF_JSON': conf}
     if first_cfg:
         extra['SPIL_FIRST_CFG'] = first_cfg
-    K.code_to_spec(rep, env, conf, calls, what + ' executed on the implementation', tag=tag or family, extra=extra)
+    if cap:
+        extra['SPIL_CACHE_CAP'] = str(cap)
+    K.code_to_spec(rep, env, conf, calls, what + ' executed on the implementation', tag=tag or family, extra=extra,
+                   per=(10 ** 9 if twice else 500))
     return calls
 
 
@@ -218,6 +244,8 @@ def check_C05(tier):
                         first_cfg='local', tag='tp_local')
     path_family(rep, env, conf, 'topath', tier, 'C05 family, server configuration loaded and asked first', first_cfg='server',
                 reverse=True, tag='tp_server')
+    path_family(rep, env, conf, 'topath', tier, 'C05 family with the cache capacity reduced to 3 (every call evicts)', first_cfg='local',
+                tag='tp_cap3', cap=3, twice=True)
     rep.exhaustive = True
     rep.guard(len([t for t in rep.cover if t.startswith('topath:')]) >= 12 or not calls, 'fewer than 12 path-bearing types exercised')
     rep.guard('topath:nopath' in rep.cover and 'topath:untyped' in rep.cover or not calls, 'no-path / untyped case not exercised')
